@@ -208,6 +208,7 @@ _real = {
     "replace": os.replace,
     "unlink": os.unlink,
     "remove": os.remove,
+    "TextIOWrapper": io.TextIOWrapper,
     "sendfile": getattr(shutil, "_USE_CP_SENDFILE", None),
     "copyrange": getattr(shutil, "_USE_CP_COPY_FILE_RANGE", None),
 }
@@ -217,6 +218,24 @@ def real_open(*a, **k):
     return _real["open"](*a, **k)
 
 
+def _text_wrapper_with_default(default):
+    """io.TextIOWrapper whose *omitted* encoding is the emulated platform default (a text
+    layer put over a binary stream without naming an encoding decodes with the locale's
+    encoding, exactly like open() without encoding=)."""
+    base = _real["TextIOWrapper"]
+
+    class _MetaTW(type(base)):
+        def __instancecheck__(cls, obj):  # isinstance(x, io.TextIOWrapper) keeps its meaning
+            return isinstance(obj, base)
+
+    class TextIOWrapper(base, metaclass=_MetaTW):
+        def __init__(self, buffer, encoding=None, *a, **k):
+            base.__init__(self, buffer, default if encoding is None else encoding, *a, **k)
+
+    TextIOWrapper.__module__ = "io"
+    return TextIOWrapper
+
+
 class FileProxy(io.BufferedIOBase):
     """Forwarding proxy over an unbuffered real file that models a *buffered* writer:
     data handed to write() sits in a buffer of `bufsize` bytes and reaches the file in
@@ -224,26 +243,43 @@ class FileProxy(io.BufferedIOBase):
     low-level write, flush and close is an instant; a failed low-level write loses the
     data it carried (error) or half of it (torn).  bufsize 0 = unbuffered."""
 
-    def __init__(self, sim, realf, role, bufsize=0):
+    def __init__(self, sim, realf, role, bufsize=0, raw=False):
         io.BufferedIOBase.__init__(self)
         self._sim = sim
         self._real = realf
         self._role = role
         self._closed = False
         self._buf = b""
-        self._bufsize = bufsize
+        # raw=True: the code under test asked for an *unbuffered* binary file (buffering=0),
+        # i.e. a FileIO whose write() may legally accept only part of the data and say so
+        # in its return value.  "torn" is then a short write (half the data, count
+        # returned, no exception - what a nearly full device does); the device is full
+        # afterwards, so every later write fails with ENOSPC.
+        self._raw = raw
+        self._full = False
+        self._bufsize = 0 if raw else bufsize
         sim.files.append(realf)
 
     def _lowlevel(self, data):
         act = self._sim.instant(self._role + "-write", len(data))
+        if self._raw and self._full:
+            raise OSError(errno.ENOSPC, "simulated: no space left on device")
         if act == "error":
             raise OSError(errno.ENOSPC, "simulated: no space left on device")
+        if act == "torn" and self._raw:
+            k = max(0, len(data) // 2)
+            if k:
+                self._real.write(data[:k])
+            self._full = True
+            self._sim.short_writes = getattr(self._sim, "short_writes", 0) + 1
+            return k
         if act == "torn":
             k = max(0, len(data) // 2)
             if k:
                 self._real.write(data[:k])
             raise OSError(errno.ENOSPC, "simulated: no space left on device (torn write)")
         self._real.write(data)
+        return len(data)
 
     def write(self, data):
         if self._closed:
@@ -252,8 +288,8 @@ class FileProxy(io.BufferedIOBase):
             raise TypeError("a bytes-like object is required, not 'str'")
         data = bytes(data)
         if self._bufsize <= 0:
-            self._lowlevel(data)
-            return len(data)
+            n = self._lowlevel(data)
+            return n if self._raw else len(data)
         self._buf += data
         if len(self._buf) > self._bufsize:
             out, self._buf = self._buf, b""
@@ -399,11 +435,11 @@ class FsSim(object):
             raise OSError(errno.ENOSPC, "simulated: cannot create file")
         if "b" in mode:
             realf = _real["open"](file, mode, 0, None, None, None, closefd, opener)
-            return FileProxy(self, realf, role, self.bufsize)
+            return FileProxy(self, realf, role, self.bufsize, raw=(buffering == 0))
         if encoding is None:
             encoding = self.encoding
         realf = _real["open"](file, mode.replace("t", "") + "b", 0)
-        return io.TextIOWrapper(_ProxyRaw(FileProxy(self, realf, role, self.bufsize)), encoding=encoding,
+        return _real["TextIOWrapper"](_ProxyRaw(FileProxy(self, realf, role, self.bufsize)), encoding=encoding,
                                 errors=errors, newline=newline, write_through=True)
 
     def _fdopen(self, fd, mode="r", buffering=-1, encoding=None, *args, **kwargs):
@@ -416,9 +452,9 @@ class FsSim(object):
             os.close(fd)
             raise OSError(errno.EMFILE, "simulated: too many open files")
         if "b" in mode:
-            return FileProxy(self, _real["fdopen"](fd, mode, 0), "tmp", self.bufsize)
+            return FileProxy(self, _real["fdopen"](fd, mode, 0), "tmp", self.bufsize, raw=(buffering == 0))
         realf = _real["fdopen"](fd, mode.replace("t", "") + "b", 0)
-        return io.TextIOWrapper(_ProxyRaw(FileProxy(self, realf, "tmp", self.bufsize)),
+        return _real["TextIOWrapper"](_ProxyRaw(FileProxy(self, realf, "tmp", self.bufsize)),
                                 encoding=encoding or self.encoding, write_through=True)
 
     def _os_open(self, path, flags, mode=0o777, *, dir_fd=None):
@@ -467,6 +503,7 @@ class FsSim(object):
         os.replace = self._replace
         os.unlink = self._unlink
         os.remove = self._unlink
+        io.TextIOWrapper = _text_wrapper_with_default(self.encoding)
         if _real["sendfile"] is not None:
             shutil._USE_CP_SENDFILE = False
         if _real["copyrange"] is not None:
@@ -484,6 +521,7 @@ class FsSim(object):
         os.replace = _real["replace"]
         os.unlink = _real["unlink"]
         os.remove = _real["remove"]
+        io.TextIOWrapper = _real["TextIOWrapper"]
         if _real["sendfile"] is not None:
             shutil._USE_CP_SENDFILE = _real["sendfile"]
         if _real["copyrange"] is not None:
